@@ -4,7 +4,8 @@ EXTENDS Integers, Sequences, TLC, Json
 VARIABLE c
 Res == {[r |-> "ident", cap |-> 512], [r |-> "number", cap |-> 512], [r |-> "string", cap |-> 512],
         [r |-> "ticks", cap |-> 4], [r |-> "ident_dots", cap |-> 512], [r |-> "ident_slashes", cap |-> 512], [r |-> "macro_name", cap |-> 512], [r |-> "macro_body", cap |-> 1024],
-        [r |-> "macro_params", cap |-> 1024], [r |-> "macro_arg", cap |-> 1024], [r |-> "macro_arg_escapes", cap |-> 512], [r |-> "macro_args_total", cap |-> 4096], [r |-> "macro_call_commas", cap |-> 255],
+        [r |-> "macro_params", cap |-> 1024], [r |-> "macro_arg", cap |-> 1024], [r |-> "macro_arg_escapes", cap |-> 512], [r |-> "macro_args_total", cap |-> 4096], [r |-> "macro_call_commas", cap |-> 255], [r |-> "macro_param_count", cap |-> 127],
+        [r |-> "macro_param_count", cap |-> 255], [r |-> "empty_define_uses", cap |-> 128], [r |-> "out_path", cap |-> 1024],
         [r |-> "equ_text", cap |-> 512], [r |-> "define_text", cap |-> 1024], [r |-> "include_name", cap |-> 512],
         [r |-> "include_path", cap |-> 4096], [r |-> "include_paths_total", cap |-> 4096], [r |-> "operands", cap |-> 16],
         [r |-> "nest_macro", cap |-> 128], [r |-> "nest_if", cap |-> 128], [r |-> "nest_include", cap |-> 128],
@@ -12,7 +13,7 @@ Res == {[r |-> "ident", cap |-> 512], [r |-> "number", cap |-> 512], [r |-> "str
         [r |-> "nest_unary_operand", cap |-> 128], [r |-> "nest_ifexpr_not", cap |-> 128], [r |-> "nest_ifexpr_paren", cap |-> 128], [r |-> "repeat_count", cap |-> 65536],
         [r |-> "resb", cap |-> 65536], [r |-> "data_fill", cap |-> 65536], [r |-> "db_items", cap |-> 512],
         [r |-> "label_count", cap |-> 512], [r |-> "line_length", cap |-> 4096], [r |-> "comment_length", cap |-> 4096],
-        [r |-> "define_recursion", cap |-> 2], [r |-> "define_chain", cap |-> 128], [r |-> "include_self", cap |-> 1]}
+        [r |-> "define_recursion", cap |-> 2], [r |-> "equ_recursion", cap |-> 2], [r |-> "define_chain", cap |-> 128], [r |-> "include_self", cap |-> 1]}
 \* names of defines / equ / macros are stored with a one-byte length: lengths around 127 and 255, with a value of 123 characters
 NameRes == {[r |-> "equ_name", cap |-> 127], [r |-> "define_name", cap |-> 127], [r |-> "macro_name_value", cap |-> 127],
             [r |-> "equ_name", cap |-> 255], [r |-> "define_name", cap |-> 255]}
@@ -28,7 +29,7 @@ Prod == {"prod_include_if", "prod_macro_if", "prod_include_macro_if", "prod_incl
 ProdCases == {[res |-> r, cap |-> 1, len |-> n] : r \in Prod, n \in {2, 16, 64, 126, 127, 128}}
 Lens(cap) == {1, cap \div 2, cap - 1, cap, cap + 1, cap + 2, 2 * cap, 2 * cap + 1} \cup (IF cap <= 4096 THEN {16 * cap} ELSE {})
 \* recursion in the code follows the nesting of the input: these are also tried far beyond any stack
-Deep == {"nest_paren", "nest_unary", "nest_unary_paren", "nest_unary_operand", "nest_if", "nest_ifexpr_not", "nest_ifexpr_paren"}
+Deep == {"empty_define_uses", "nest_paren", "nest_unary", "nest_unary_paren", "nest_unary_operand", "nest_if", "nest_ifexpr_not", "nest_ifexpr_paren"}
 \* statements that only one of the two passes sees (the guard asks for a name that is defined further down, so
 \* its answer differs between the passes): the symbol table is locked and the macro table reset in pass 2
 Guards == {"p2_ifdef", "p2_if_defined", "p2_else", "p1_ifndef", "p1_else"}
